@@ -281,3 +281,139 @@ fn ioreader_chunked_body() {
 }
 #[cfg(kani)] #[kani::proof] #[kani::unwind(8)] fn ioreader_chunked() { ioreader_chunked_body() }
 #[cfg(all(not(kani), psc_verif_replay))] #[test] fn replay_ioreader_chunked() { vk::load_replay(); ioreader_chunked_body() }
+
+// ---- C10: zero-sized element type with a Drop impl (a token): the guards must not key on size ----------------
+static mut LIVE_Z: i32 = 0;
+pub struct Z;
+impl Drop for Z { fn drop(&mut self) { unsafe { LIVE_Z -= 1; } } }
+impl Decode for Z {
+    fn decode<I: Input>(input: &mut I) -> Result<Self, Error> {
+        let b = input.read_byte()?;
+        if b >= 0x80 { return Err("bad token".into()); }
+        unsafe { LIVE_Z += 1; }
+        Ok(Z)
+    }
+}
+fn live_z() -> i32 { unsafe { LIVE_Z } }
+fn drop_array3_zst_body() {
+    unsafe { LIVE_Z = 0; }
+    let bytes: [u8; 3] = [vk::any_u8(), vk::any_u8(), vk::any_u8()];
+    let len = vk::any_usize();
+    vk::assume(len <= 3);
+    let mut inp: &[u8] = &bytes[..len];
+    match <[Z; 3]>::decode(&mut inp) {
+        Ok(a) => { assert!(live_z() == 3, "Ok must hand over 3 live tokens"); drop(a); assert!(live_z() == 0, "dropping the array must release every token exactly once"); }
+        Err(_) => { assert!(live_z() == 0, "failed decode of [Z;3] (zero-sized, Drop) leaked or double-dropped a token"); }
+    }
+}
+#[cfg(kani)] #[kani::proof] #[kani::unwind(5)] fn drop_array3_zst() { drop_array3_zst_body() }
+#[cfg(all(not(kani), psc_verif_replay))] #[test] fn replay_drop_array3_zst() { vk::load_replay(); drop_array3_zst_body() }
+
+// ---- C10: derived decode_into of a repr(transparent) struct with a second (zero-sized, fallible) field --------
+/// zero-sized marker whose encoding is one tag byte that must be < 0x80
+pub struct Tag;
+impl Decode for Tag {
+    fn decode<I: Input>(input: &mut I) -> Result<Self, Error> {
+        if input.read_byte()? >= 0x80 { return Err("bad tag".into()); }
+        Ok(Tag)
+    }
+}
+#[derive(crate::Decode)]
+#[codec(crate = crate)]
+#[repr(transparent)]
+pub struct TW(D, Tag);
+fn drop_transparent_box_body() {
+    reset();
+    let bytes: [u8; 2] = [vk::any_u8(), vk::any_u8()];
+    let len = vk::any_usize();
+    vk::assume(len <= 2);
+    let mut inp: &[u8] = &bytes[..len];
+    match <Box<TW>>::decode(&mut inp) {
+        Ok(b) => { assert!(live() == 1 && (b.0).0 == bytes[0]); drop(b); assert!(live() == 0); }
+        Err(_) => { assert!(live() == 0, "failed in-place decode of a transparent struct leaked or double-dropped its first field"); }
+    }
+}
+#[cfg(kani)] #[kani::proof] #[kani::unwind(5)] fn drop_transparent_box() { drop_transparent_box_body() }
+#[cfg(all(not(kani), psc_verif_replay))] #[test] fn replay_drop_transparent_box() { vk::load_replay(); drop_transparent_box_body() }
+fn drop_transparent_array2_body() {
+    reset();
+    let bytes: [u8; 4] = [vk::any_u8(), vk::any_u8(), vk::any_u8(), vk::any_u8()];
+    let len = vk::any_usize();
+    vk::assume(len <= 4);
+    let mut inp: &[u8] = &bytes[..len];
+    match <[TW; 2]>::decode(&mut inp) {
+        Ok(a) => { assert!(live() == 2); drop(a); assert!(live() == 0); }
+        Err(_) => { assert!(live() == 0, "failed decode of [TW;2] leaked or double-dropped"); }
+    }
+}
+#[cfg(kani)] #[kani::proof] #[kani::unwind(5)] fn drop_transparent_array2() { drop_transparent_array2_body() }
+#[cfg(all(not(kani), psc_verif_replay))] #[test] fn replay_drop_transparent_array2() { vk::load_replay(); drop_transparent_array2_body() }
+
+// ---- C18: skip agrees with decode (success, bytes consumed) on every byte string up to the bound -------------
+fn skip_vs_decode<T: Decode, const L: usize>() {
+    let mut bytes = [0u8; L];
+    let mut i = 0;
+    while i < L { bytes[i] = vk::any_u8(); i += 1; }
+    let len = vk::any_usize();
+    vk::assume(len <= L);
+    let mut a: &[u8] = &bytes[..len];
+    let mut b: &[u8] = &bytes[..len];
+    let r1 = T::decode(&mut a);
+    let r2 = T::skip(&mut b);
+    assert!(r1.is_ok() == r2.is_ok(), "skip succeeds on an input that decode rejects, or the reverse");
+    if r1.is_ok() { assert!(a.len() == b.len(), "skip consumed a different number of bytes than decode"); }
+}
+macro_rules! skip_harness {
+    ($body:ident, $proof:ident, $replay:ident, $t:ty, $l:expr, $unw:expr) => {
+        fn $body() { skip_vs_decode::<$t, $l>() }
+        #[cfg(kani)] #[kani::proof] #[kani::unwind($unw)] fn $proof() { $body() }
+        #[cfg(all(not(kani), psc_verif_replay))] #[test] fn $replay() { vk::load_replay(); $body() }
+    };
+}
+skip_harness!(skip_array_bool3_body, skip_array_bool3, replay_skip_array_bool3, [bool; 3], 4, 7);
+skip_harness!(skip_array_u16x2_body, skip_array_u16x2, replay_skip_array_u16x2, [u16; 2], 5, 7);
+skip_harness!(skip_option_bool_body, skip_option_bool, replay_skip_option_bool, Option<bool>, 3, 6);
+skip_harness!(skip_tuple_body, skip_tuple, replay_skip_tuple, (crate::Compact<u32>, bool), 6, 9);
+skip_harness!(skip_result_body, skip_result, replay_skip_result, Result<bool, u16>, 4, 7);
+
+// ---- C06/C16: a slice of holders of a primitive encodes like the slice of the primitives ---------------------
+fn holders_in_slice_body() {
+    let x = vk::any_u16(); let y = vk::any_u16();
+    let plain: [u16; 2] = [x, y];
+    let refs: [&u16; 2] = [&x, &y];
+    let mut o1 = Buf::new(); plain[..].encode_to(&mut o1);
+    let mut o2 = Buf::new(); refs[..].encode_to(&mut o2);
+    let mut o3 = Buf::new(); refs.encode_to(&mut o3);
+    assert!(o1.n == 5 && o2.n == 5 && o3.n == 4, "slice of references has a different encoded length");
+    let mut i = 0;
+    while i < 5 { assert!(o1.b[i] == o2.b[i], "[&u16] does not encode like [u16]"); i += 1; }
+    let mut j = 0;
+    while j < 4 { assert!(o1.b[1 + j] == o3.b[j], "[&u16; 2] does not encode like [u16; 2]"); j += 1; }
+    assert!(refs[..].encoded_size() == 5, "encoded_size of [&u16] differs");
+}
+#[cfg(kani)] #[kani::proof] #[kani::unwind(8)] fn holders_in_slice() { holders_in_slice_body() }
+#[cfg(all(not(kani), psc_verif_replay))] #[test] fn replay_holders_in_slice() { vk::load_replay(); holders_in_slice_body() }
+
+// ---- C02/C09: element-wise Vec decode across more than one preallocation chunk ---------------------------------
+/// 8 KiB element (two per 16 KiB chunk) encoded as a single byte
+pub struct Big([u8; 8192]);
+impl Decode for Big {
+    fn decode<I: Input>(input: &mut I) -> Result<Self, Error> { let b = input.read_byte()?; Ok(Big([b; 8192])) }
+}
+fn vec_multichunk_body() {
+    let bytes: [u8; 6] = [vk::any_u8(), vk::any_u8(), vk::any_u8(), vk::any_u8(), vk::any_u8(), vk::any_u8()];
+    vk::assume(bytes[0] == 3 * 4);   // compact count 3: one full chunk of two elements plus a second chunk of one
+    let n = (bytes[0] >> 2) as usize;
+    let mut inp: &[u8] = &bytes[..];
+    match <Vec<Big>>::decode(&mut inp) {
+        Ok(v) => {
+            assert!(v.len() == n, "decoded vector has a different length than its prefix announces");
+            assert!(inp.len() == 5 - n, "decode left a different number of bytes unread");
+            let mut i = 0;
+            while i < n { assert!(v[i].0[0] == bytes[1 + i] && v[i].0[8191] == bytes[1 + i], "element differs"); i += 1; }
+        }
+        Err(_) => assert!(false, "valid multi-chunk vector rejected"),
+    }
+}
+#[cfg(kani)] #[kani::proof] #[kani::unwind(8)] fn vec_multichunk() { vec_multichunk_body() }
+#[cfg(all(not(kani), psc_verif_replay))] #[test] fn replay_vec_multichunk() { vk::load_replay(); vec_multichunk_body() }
